@@ -228,7 +228,7 @@ def run(ctx):
         for lo in range(256):
             check_xtext(ctx, smtp, bytes((hi, lo)))
     # -- random
-    for i in ctx.cases(60000, 4000000):
+    for i in ctx.cases(60000, 2400000):
         rng = ctx.case_rng(i)
         s = gen_text(rng)
         ok = check_imap(ctx, imap4, s)
